@@ -76,6 +76,17 @@ pub fn all() -> Vec<Prop> {
             ],
             batches: vec![Batch { name: "encrypt", scenario: crate::scen_d::c05_encrypt, quick: 30000, thorough: 400000, varies: "RNG bytes (IVs, salts, pad bytes; 5 adversarial modes) x sink/source chunking x loader schedule x in-memory vs persisted path" }],
         },
+        Prop {
+            id: "C11",
+            level: "exploration",
+            rule: "one case = one well-formed page-tree document (generated, or saved and loaded first) x a program of 1-12 public editing calls (new_object_id, add/set/delete_object, remove_object, prune_objects, delete_pages, renumber_objects(_with), compress, decompress, change_page_content, add_page_contents, add_to_page_content, add_xobject, add_graphics_state, get_or_create_resources, add_bookmark+build_outline, save_to on a chunking/interrupting/failing sink, crash+reload of the last accepted image under a drawn loader schedule); \
+                   after every call the before/after states are checked against the operation's frame and the post-conditions I1-I7 (DESIGN.md Appendix A); distinct = distinct (operation sequence, final document digest); non-trivial = at least 2 operations executed",
+            assumptions: &[
+                "starting documents are well-formed (each page once in one Kids, Count correct, content decodable); catalog, page-tree nodes, pages and content streams are never the target of an explicit delete_object/set_object",
+                "the independent reading of page order, page content tokens, usable resources and reachability is pdfmodel/src/pagegen.rs",
+            ],
+            batches: vec![Batch { name: "program", scenario: crate::scen_e::c11_program, quick: 40000, thorough: 600000, varies: "sink chunking/EINTR/hard faults inside save_to x crash-and-reload as an operation x loader schedule and source chunking on reload x operation programs" }],
+        },
     ]
 }
 
